@@ -12,7 +12,10 @@ use http::{HeaderMap, Request, Response};
 use std::task::{Context, Poll, Waker};
 use tokio::io::AsyncWrite;
 
+#[cfg(not(feature = "verif"))]
 use std::sync::{Arc, Mutex};
+#[cfg(feature = "verif")]
+use {crate::verif::Mutex, std::sync::Arc};
 use std::{fmt, io};
 
 #[derive(Debug)]
@@ -1835,5 +1838,32 @@ impl Actions {
     fn clear_queues(&mut self, clear_pending_accept: bool, store: &mut Store, counts: &mut Counts) {
         self.recv.clear_queues(clear_pending_accept, store, counts);
         self.send.clear_queues(store, counts);
+    }
+}
+
+#[cfg(feature = "verif")]
+impl<B, P> Streams<B, P>
+where
+    B: Buf + std::marker::Send + 'static,
+    P: Peer,
+{
+    pub(crate) fn verif_stats_handle(&self) -> crate::verif::StatsHandle {
+        let inner = self.inner.clone();
+        let send_buffer = self.send_buffer.clone();
+        crate::verif::StatsHandle(Arc::new(move || {
+            let me = inner.lock_quiet();
+            let mut s = crate::verif::VerifStats::default();
+            let (slab, ids) = me.store.verif_sizes();
+            s.store_slab = slab;
+            s.store_ids = ids;
+            s.refs = me.refs;
+            s.has_conn_error = me.actions.conn_error.is_some();
+            me.counts.verif_fill(&mut s);
+            me.actions.recv.verif_fill(&mut s);
+            me.actions.send.verif_fill(&mut s);
+            s.streams = me.store.verif_streams().map(|st| st.verif_stat()).collect();
+            s.send_buffer_slots = send_buffer.inner.lock_quiet().verif_len();
+            s
+        }))
     }
 }
